@@ -17,7 +17,7 @@ func init() {
 
 func c12Body(r *simcore.Run) {
 	s := newSQLEnv(r, "sql-0")
-	s.mustExec("CREATE TABLE t (id INTEGER, a INTEGER NOT NULL, b VARCHAR[6], c INTEGER, PRIMARY KEY id, CHECK (c IS NULL OR c >= 0))")
+	s.mustExec("CREATE TABLE t (id INTEGER, a INTEGER NOT NULL, b VARCHAR[6], c INTEGER, PRIMARY KEY id, CONSTRAINT c_nonneg CHECK (c IS NULL OR c >= 0))")
 	s.mustExec("CREATE TABLE g (id INTEGER AUTO_INCREMENT, a INTEGER, PRIMARY KEY id)")
 	// composite unique index, present from the start
 	s.mustExec("CREATE TABLE u (id INTEGER, p INTEGER NOT NULL, q INTEGER NOT NULL, PRIMARY KEY id)")
@@ -151,6 +151,28 @@ func c12Body(r *simcore.Run) {
 			r.Logf("ddl: CREATE UNIQUE INDEX ON t(a) -> %v", err)
 			if err == nil {
 				r.Probe("c12-unique-index-on-populated-table")
+			}
+		}))
+	}
+	if r.Pct(40) {
+		// DDL that is rolled back leaves no trace: the constraint stays in force
+		tasks = append(tasks, r.Sched.Go("ddl-rollback", func() {
+			for i := 0; i < 1+r.Intn(2); i++ {
+				r.Yield("c12-ddl-rollback")
+				tx, err := s.eng.NewTx(r.Ctx(), sql.DefaultTxOptions().WithExplicitClose(true))
+				if err != nil {
+					continue
+				}
+				ntx, _, err := s.exec(tx, "ALTER TABLE t DROP CONSTRAINT c_nonneg")
+				r.Logf("ddl-rollback: DROP CONSTRAINT in a transaction -> %v", err)
+				if ntx != nil {
+					tx = ntx
+				}
+				r.Yield("c12-ddl-rollback-open")
+				if !tx.Closed() {
+					tx.Cancel()
+				}
+				r.Probe("c12-ddl-rolled-back")
 			}
 		}))
 	}
